@@ -43,10 +43,24 @@ fn lift<E: Express<'static, Term>>(r: Result<ExResult<(E, Term)>, String>) -> (O
     match r {
         Err(p) => (Obs { outcome: "panic", msg: p, vars: vec![], den: None, extra: Map::new() }, None),
         Ok(Err(e)) => (Obs { outcome: "err", msg: e.msg().to_string(), vars: vec![], den: None, extra: Map::new() }, None),
-        Ok(Ok((e, d))) => (
-            Obs { outcome: "ok", msg: String::new(), vars: e.var_names().to_vec(), den: Some(d), extra: Map::new() },
-            Some(e),
-        ),
+        Ok(Ok((e, d))) => {
+            let mut extra = Map::new();
+            let names = |v: Vec<String>| Value::Array(v.iter().map(|s| cps(s)).collect());
+            let lst = guarded(|| {
+                json!({"bin": names(e.binary_reprs().to_vec()), "un": names(e.unary_reprs().to_vec()),
+                       "all": names(e.operator_reprs().to_vec())})
+            });
+            match lst {
+                Ok(l) => {
+                    extra.insert("lst".into(), l);
+                }
+                Err(_) => {
+                    extra.insert("lst_panic".into(), json!(true));
+                }
+            }
+            extra.insert("unparse".into(), cps(e.unparse()));
+            (Obs { outcome: "ok", msg: String::new(), vars: e.var_names().to_vec(), den: Some(d), extra }, Some(e))
+        }
     }
 }
 
